@@ -472,7 +472,7 @@ func (g *gen) validDN(marker string) []rdn {
 
 func (g *gen) x509(rdns []rdn) string { return "x509.subject:" + g.renderDN(rdns) }
 
-var namePool = []string{"wabbit-networks-images", "unsigned-image", "s1", "s2", "s3", "p 4", "Ünï", "*", "a:b", "skip", "global"}
+var namePool = []string{"wabbit-networks-images", " ", "unsigned-image", "\t", "s1", "\u00a0", "s2", "  ", "s3", " \t\n", "p 4", "Ünï", "*", "a:b", "skip", "global", "\u2003"}
 
 func (g *gen) validStatement(kind string, i int, usedScopes map[string]bool, wildcardFree *bool) stmt {
 	s := stmt{name: namePool[i%len(namePool)], override: map[string]string{}}
@@ -611,7 +611,14 @@ func onDN(f func(g *gen) string) func(g *gen, d *doc) bool {
 	}
 }
 
-var badScopes = []string{"", "registry.example.com", "/repo", "registry.example.com/", "registry.example.com/Repo", "registry.example.com/a*b", "*/repo",
+// hosts whose labels are legal but are joined by something other than a dot (or carry a port that is not one)
+var badHosts = []string{"my_registry", "user@registry.example.com", "registry.example.com:port", "registry.example.com:80:90",
+	"registry example.com", "registry,example.com", "a b", "a\tb", "registry/example", "registry-.com", "a_b.c", "reg;example.com",
+	"registry\u00a0example.com", "a+b", "a~b", "reg.example.com:", "a:b:1", "registry..example.com", "a%b"}
+
+var badScopes = []string{"my_registry/app", "user@registry.example.com/app", "registry.example.com:port/app", "registry.example.com:80:90/app",
+	"registry example.com/app", "registry,example.com/app", "a b/app", "a_b.c/app", "reg;example.com/app", "a+b/app", "a:b:1/app",
+	"", "registry.example.com", "/repo", "registry.example.com/", "registry.example.com/Repo", "registry.example.com/a*b", "*/repo",
 	"reg*.example.com/repo", "**", "https://registry.example.com/repo", "registry.example.com/repo:v1", "registry.example.com/repo@sha256:abc",
 	"registry.example.com/a//b", "registry.example.com/a/", "-reg.example.com/repo", "reg-.example.com/repo", "reg..example.com/repo", "reg.example.com:/repo",
 	"reg.example.com:80a/repo", "reg_x.example.com/repo", "reg.example.com/a___b", "reg.example.com/a._b", "reg.example.com/-a", "reg.example.com/a-", "reg.example.com/a.", "reg.example.com/ä",
@@ -1004,7 +1011,7 @@ func (g *gen) randomDoc(kind string) doc {
 	}
 	for i := 0; i < n; i++ {
 		s := stmt{override: map[string]string{}}
-		s.name = g.pick("a", "b", "c", "d", "e", "f", "", "a")
+		s.name = g.pick("a", "b", "c", "d", "e", "f", "", "a", " ", "\t", "\u00a0")
 		s.level = g.pick("strict", "permissive", "audit", "skip", "skip", "", "Strict")
 		if g.chance(0.8) {
 			s.level = g.pick("strict", "permissive", "audit", "skip")
@@ -1074,60 +1081,191 @@ func (g *gen) randomDoc(kind string) doc {
 
 // ---- regular expressions ---------------------------------------------------------------------
 
-// scopeRegexes reads the two expressions of validateRegistryScopeFormat from the tree under test.
-func scopeRegexes(repo string) (domain, repository *regexp.Regexp, err error) {
-	fset := token.NewFileSet()
-	f, err := parser.ParseFile(fset, filepath.Join(repo, "verifier/trustpolicy/oci.go"), nil, 0)
-	if err != nil {
-		return nil, nil, err
+// The expressions the Lean matcher was written against: the fall-back oracle when the expressions
+// cannot be read from the tree under test (the fact extractor reports that case as a broken fact).
+const (
+	pinnedDomainRegex     = `^(?:[a-zA-Z0-9]|[a-zA-Z0-9][a-zA-Z0-9-]*[a-zA-Z0-9])(?:(?:\.(?:[a-zA-Z0-9]|[a-zA-Z0-9][a-zA-Z0-9-]*[a-zA-Z0-9]))+)?(?::[0-9]+)?$`
+	pinnedRepositoryRegex = `^[a-z0-9]+(?:(?:(?:[._]|__|[-]*)[a-z0-9]+)+)?(?:(?:/[a-z0-9]+(?:(?:(?:[._]|__|[-]*)[a-z0-9]+)+)?)+)?$`
+)
+
+type usedRegex struct{ recv, arg, text string }
+
+func exprName(e ast.Expr) string {
+	switch x := e.(type) {
+	case *ast.Ident:
+		return x.Name
+	case *ast.SelectorExpr:
+		return exprName(x.X) + "." + x.Sel.Name
 	}
-	found := map[string]string{}
-	var order []string
-	ast.Inspect(f, func(n ast.Node) bool {
-		fd, ok := n.(*ast.FuncDecl)
-		if !ok {
-			return true
+	return ""
+}
+
+func evalString(e ast.Expr, local, pkg map[string]ast.Expr, depth int) (string, error) {
+	if depth > 20 {
+		return "", fmt.Errorf("definitions nest too deeply")
+	}
+	switch x := e.(type) {
+	case *ast.BasicLit:
+		if x.Kind != token.STRING {
+			return "", fmt.Errorf("literal %s is not a string", x.Value)
 		}
-		if fd.Name.Name != "validateRegistryScopeFormat" {
-			return false
+		return strconv.Unquote(x.Value)
+	case *ast.ParenExpr:
+		return evalString(x.X, local, pkg, depth+1)
+	case *ast.BinaryExpr:
+		if x.Op != token.ADD {
+			return "", fmt.Errorf("operator %s in a regular expression text", x.Op)
 		}
-		ast.Inspect(fd.Body, func(n ast.Node) bool {
-			as, ok := n.(*ast.AssignStmt)
-			if !ok || len(as.Lhs) != 1 || len(as.Rhs) != 1 {
-				return true
-			}
-			id, ok := as.Lhs[0].(*ast.Ident)
-			call, ok2 := as.Rhs[0].(*ast.CallExpr)
-			if !ok || !ok2 || len(call.Args) != 1 {
-				return true
-			}
-			if sel, ok := call.Fun.(*ast.SelectorExpr); ok && sel.Sel.Name == "MustCompile" {
-				if bl, ok := call.Args[0].(*ast.BasicLit); ok {
-					if v, err := strconv.Unquote(bl.Value); err == nil {
-						found[id.Name] = v
-						order = append(order, v)
+		l, err := evalString(x.X, local, pkg, depth+1)
+		if err != nil {
+			return "", err
+		}
+		r, err := evalString(x.Y, local, pkg, depth+1)
+		return l + r, err
+	case *ast.Ident:
+		if v, ok := local[x.Name]; ok {
+			return evalString(v, local, pkg, depth+1)
+		}
+		if v, ok := pkg[x.Name]; ok {
+			return evalString(v, nil, pkg, depth+1)
+		}
+		return "", fmt.Errorf("%s is not defined in this file", x.Name)
+	}
+	return "", fmt.Errorf("cannot evaluate the expression text")
+}
+
+// usedRegexes follows every <re>.MatchString(arg) of a function back to the text given to
+// regexp.MustCompile: compiled in place, a local, or a package-level variable; the text may be a
+// literal, a named constant / variable or a concatenation of those.
+func usedRegexes(f *ast.File, fn string) ([]usedRegex, error) {
+	pkg := map[string]ast.Expr{}
+	var fd *ast.FuncDecl
+	for _, d := range f.Decls {
+		switch x := d.(type) {
+		case *ast.GenDecl:
+			for _, sp := range x.Specs {
+				if vs, ok := sp.(*ast.ValueSpec); ok {
+					for i, n := range vs.Names {
+						if i < len(vs.Values) {
+							pkg[n.Name] = vs.Values[i]
+						}
 					}
 				}
 			}
-			return true
-		})
-		return false
+		case *ast.FuncDecl:
+			if x.Name.Name == fn && x.Recv == nil {
+				fd = x
+			}
+		}
+	}
+	if fd == nil {
+		return nil, fmt.Errorf("function %s not found", fn)
+	}
+	local := map[string]ast.Expr{}
+	ast.Inspect(fd.Body, func(n ast.Node) bool {
+		switch x := n.(type) {
+		case *ast.AssignStmt:
+			if len(x.Lhs) == len(x.Rhs) {
+				for i, l := range x.Lhs {
+					if id, ok := l.(*ast.Ident); ok {
+						local[id.Name] = x.Rhs[i]
+					}
+				}
+			}
+		case *ast.ValueSpec:
+			for i, n := range x.Names {
+				if i < len(x.Values) {
+					local[n.Name] = x.Values[i]
+				}
+			}
+		}
+		return true
 	})
-	ds, ok1 := found["domainRegexp"]
-	rs, ok2 := found["repositoryRegexp"]
-	if (!ok1 || !ok2) && len(order) == 2 {
-		// renamed locals: the first expression compiled is the domain's, the second the repository's
-		ds, rs, ok1, ok2 = order[0], order[1], true, true
+	var used []usedRegex
+	var firstErr error
+	ast.Inspect(fd.Body, func(n ast.Node) bool {
+		c, ok := n.(*ast.CallExpr)
+		if !ok || len(c.Args) != 1 {
+			return true
+		}
+		sel, ok := c.Fun.(*ast.SelectorExpr)
+		if !ok || sel.Sel.Name != "MatchString" {
+			return true
+		}
+		u := usedRegex{arg: exprName(c.Args[0])}
+		var def ast.Expr = sel.X
+		loc := local
+		if id, ok := sel.X.(*ast.Ident); ok {
+			u.recv = id.Name
+			if v, ok := local[id.Name]; ok {
+				def = v
+			} else if v, ok := pkg[id.Name]; ok {
+				def, loc = v, nil
+			} else {
+				firstErr = fmt.Errorf("%s is defined neither in %s nor at package level", id.Name, fn)
+				return true
+			}
+		}
+		mc, ok := def.(*ast.CallExpr)
+		if !ok || len(mc.Args) != 1 || !strings.HasPrefix(exprName(mc.Fun), "regexp.MustCompile") {
+			firstErr = fmt.Errorf("an expression matched in %s is not compiled by regexp.MustCompile", fn)
+			return true
+		}
+		text, err := evalString(mc.Args[0], loc, pkg, 0)
+		if err != nil {
+			firstErr = err
+			return true
+		}
+		u.text = text
+		used = append(used, u)
+		return true
+	})
+	return used, firstErr
+}
+
+// scopeRegexes reads the two expressions of validateRegistryScopeFormat from the tree under test,
+// wherever they are defined. It never fails: when they cannot be found (problem != ""), Go's
+// regexp on the pinned expression texts is the oracle of the regex cases instead.
+func scopeRegexes(repo string) (domain, repository *regexp.Regexp, problem string) {
+	fallback := func(why string) (*regexp.Regexp, *regexp.Regexp, string) {
+		return regexp.MustCompile(pinnedDomainRegex), regexp.MustCompile(pinnedRepositoryRegex), why
 	}
-	if !ok1 || !ok2 {
-		return nil, nil, fmt.Errorf("the two regular expressions of validateRegistryScopeFormat were not found")
-	}
-	domain, err = regexp.Compile(ds)
+	fset := token.NewFileSet()
+	f, err := parser.ParseFile(fset, filepath.Join(repo, "verifier/trustpolicy/oci.go"), nil, 0)
 	if err != nil {
-		return nil, nil, err
+		return fallback(err.Error())
 	}
-	repository, err = regexp.Compile(rs)
-	return domain, repository, err
+	used, err := usedRegexes(f, "validateRegistryScopeFormat")
+	if err != nil {
+		return fallback(err.Error())
+	}
+	has := func(u usedRegex, sub string) bool {
+		return strings.Contains(strings.ToLower(u.recv), sub) || strings.Contains(strings.ToLower(u.arg), sub)
+	}
+	di, ri := -1, -1
+	for i, u := range used {
+		switch {
+		case di < 0 && (has(u, "domain") || has(u, "host") || has(u, "registry")):
+			di = i
+		case ri < 0 && has(u, "repo"):
+			ri = i
+		}
+	}
+	if (di < 0 || ri < 0) && len(used) == 2 {
+		di, ri = 0, 1
+	}
+	if di < 0 || ri < 0 || di == ri {
+		return fallback(fmt.Sprintf("validateRegistryScopeFormat matches %d regular expressions, cannot tell domain from repository", len(used)))
+	}
+	domain, err = regexp.Compile(used[di].text)
+	if err != nil {
+		return fallback(err.Error())
+	}
+	repository, err = regexp.Compile(used[ri].text)
+	if err != nil {
+		return fallback(err.Error())
+	}
+	return domain, repository, ""
 }
 
 func words(alphabet string, maxLen int, f func(string)) {
@@ -1212,11 +1350,23 @@ func (g *gen) regexCases(domainRe, repoRe *regexp.Regexp) {
 		}
 		words(al, l, func(w string) { emit(rx, w, oracle[rx](w)) })
 	}
+	for _, h := range badHosts {
+		emit("domain", h, oracle["domain"](h))
+		emit("scope", h+"/app", oracle["scope"](h+"/app"))
+		for _, good := range []string{"registry.example.com", "localhost:5000", "a-b.c"} {
+			// a legal host with one separator replaced
+			for _, sep := range []string{"_", "@", " ", ",", ":", ";", "/"} {
+				m := strings.Replace(good, ".", sep, 1)
+				emit("domain", m, oracle["domain"](m))
+				emit("scope", m+"/app", oracle["scope"](m+"/app"))
+			}
+		}
+	}
 	n := 1500
 	if c.Thorough() {
 		n = 40000
 	}
-	const noise = "aZ0_.-/:* \n\\é+@#"
+	const noise = "aZ0_.-/:* \n\\é+@#,;"
 	for i := 0; i < n; i++ {
 		var rx, base string
 		switch g.n(4) {
@@ -1244,9 +1394,10 @@ func Run(c *common.Ctx) error {
 	if repo == "" {
 		repo = "/repo"
 	}
-	domainRe, repoRe, err := scopeRegexes(repo)
-	if err != nil {
-		return err
+	domainRe, repoRe, problem := scopeRegexes(repo)
+	if problem != "" {
+		c.Count("regex-reader/fallback-to-pinned-expressions")
+		c.Note("the scope expressions could not be read from the tree (%s): Go's regexp on the pinned expression texts is the oracle of the regex cases", problem)
 	}
 
 	otherKind := map[string]string{"oci": "blob", "blob": "oci"}
@@ -1346,6 +1497,16 @@ func Run(c *common.Ctx) error {
 		d = base.clone()
 		d.stmts[0].ids = []string{"x509.subject:C=US,ST=WA,O=x,CN=,CN=foo"}
 		emitDoc(d, "witness")
+		for _, nm := range []string{" ", "\t", "\u00a0", " \n "} {
+			d = base.clone()
+			d.stmts[0].name = nm
+			emitDoc(d, "witness") // a blank name is a name: the document is well-formed
+		}
+		for _, h := range badHosts {
+			d = base.clone()
+			d.stmts[0].scopes = []string{h + "/app"}
+			emitDoc(d, "witness") // labels joined by something that is not a dot
+		}
 	}
 
 	// every single operator on a few valid documents, every ordered pair at least once
